@@ -2,7 +2,7 @@
 META = {
     "level": 'exploration',
     "technique": 'runtime oracle on the real IncompleteHashTree.set_hashes: a genuine HashTree is the reference; every call is judged (success => tree holds only genuine nodes and no forged leaf was accepted; exception => node list identical to before; asked-for genuine hashes => must succeed); bounded-exhaustive adversarial enumeration plus seeded validation orders',
-    "text": 'Executes the real hashtree.HashTree / IncompleteHashTree. For every tree of 1..8 leaves, every partially-filled state reachable by <=2 earlier successful validations, every target leaf and every genuine/forged/missing choice for each node of its chain (leaf + siblings), combined with an extra (none, forged unknown off-chain node, conflicting value for a known node, unvalidatable genuine node, out-of-range index), plus self-consistent forged sub-chains and whole chains taken from a different tree, set_hashes is called and judged against the genuine tree. Seeded random validation orders (single and multi-leaf, include_leaf on/off, leaves= vs hashes=) with interleaved forgeries for trees up to 64 leaves (biased to non-powers of two, exercising padding leaves). The enumeration is complete for the stated bound (exhaustive flag); larger trees are sampled. A passive class-level contract (attach_monitor) re-checks rollback and parent/child consistency on every call.',
+    "text": 'Executes the real hashtree.HashTree / IncompleteHashTree. For every tree of 1..8 leaves, every partially-filled state reachable by <=2 earlier successful validations, every target leaf and every genuine/forged/missing choice for each node of its chain (leaf + siblings), combined with an extra (none, forged unknown off-chain node, conflicting value for a known node, unvalidatable genuine node, out-of-range index, the leaf passed twice with different values through hashes= and leaves=), plus a dedicated sweep of calls that give the leaf in both arguments (genuine/forged x genuine/forged, chain as asked/complete/absent/forged) on root-only, partially and fully populated trees of 1..8, 13, 32, 64 leaves, plus self-consistent forged sub-chains and whole chains taken from a different tree, set_hashes is called and judged against the genuine tree. Seeded random validation orders (single and multi-leaf, include_leaf on/off, leaves= vs hashes=) with interleaved forgeries for trees up to 64 leaves (biased to non-powers of two, exercising padding leaves). The enumeration is complete for the stated bound (exhaustive flag); larger trees are sampled. A passive class-level contract (attach_monitor) re-checks rollback and parent/child consistency on every call.',
     "note": 'Trusts HashTree as the definition of the genuine tree (its well-formedness is re-checked with the repo pair_hash / empty_leaf_hash) and that forged values are fresh random 32-byte strings (no SHA-256d collisions). Negative indices are not encodable on the wire and are counted as dont_care.',
 }
 LEVEL = "exploration"
@@ -206,22 +206,26 @@ class Judge(object):
         else:
             ck.mon("soundness-oracle")
             # 1. no forged leaf accepted (whether or not it is remembered)
-            sup_leaves = dict((W.first + j, v) for j, v in (leaves or {}).items())
-            conflicting = False
-            for i, v in (hashes or {}).items():
-                if W.first <= i < W.size:
-                    if i in sup_leaves and sup_leaves[i] != v:
-                        conflicting = True      # two different values for one leaf in one call: which one was
-                    sup_leaves.setdefault(i, v)  # "accepted" is open -> judged by the stored value only (rule 1)
-            if conflicting:
-                ck.skip("conflicting-leaf-arguments-accepted")
-            for i, v in sorted(sup_leaves.items()):
-                if conflicting:
-                    break
+            # (whichever argument carries it: the caller treats a normal return as "the leaf I passed is valid", and a
+            #  leaf-node hash inside `hashes` is just as much a claim about that leaf)
+            claims = [(W.first + j, v, "leaves") for j, v in (leaves or {}).items()]
+            claims += [(i, v, "hashes") for i, v in (hashes or {}).items() if W.first <= i < W.size]
+            per_node = {}
+            for i, v, src in claims:
+                per_node.setdefault(i, set()).add(v)
+            for i, v, src in sorted(claims):
                 if i < W.size and v != W.G[i]:
                     build()["forged_leaf_node"] = i
-                    ck.violation("forged-leaf-accepted",
-                                 "set_hashes returned successfully although leaf node %d was given a value that is not the genuine leaf" % i, build())
+                    build()["forged_value_carried_by"] = src
+                    if len(per_node[i]) > 1:
+                        ck.violation("conflicting-leaf-arguments-accepted",
+                                     "set_hashes returned successfully although hashes[%d] and leaves[%d] disagree and the %s= value "
+                                     "is not the genuine leaf (the caller concludes its forged leaf is valid)"
+                                     % (i, i - W.first, src), build())
+                    else:
+                        ck.violation("forged-leaf-accepted",
+                                     "set_hashes returned successfully although leaf node %d was given (in %s=) a value that is not the genuine leaf"
+                                     % (i, src), build())
                     verdict = "violated"
                     break
             # 2. the tree holds genuine values only
@@ -268,7 +272,8 @@ def run(ck):
     ck.require_monitor("soundness-oracle", "rollback-oracle", "completeness-oracle", "genuine-tree-wellformed",
                        "monitor-rollback", "monitor-consistency", "final-state")
     ck.require_reach("reject-BadHashError", "reject-NotEnoughHashesError", "reject-IndexError", "padding-leaf-in-chain",
-                     "forged-consistent-subchain", "conflict-with-known-node", "alt-tree-chain")
+                     "forged-consistent-subchain", "conflict-with-known-node", "alt-tree-chain",
+                     "overlapping-arguments-GF", "overlapping-arguments-FG", "overlapping-arguments-FF", "overlapping-arguments-GG", "leaf-args-conflict")
     ck.skip("negative-index-not-wire-encodable")
 
 
@@ -343,6 +348,8 @@ def _run(ck, hashtree, J):
     thorough = ck.tier == "thorough"
     sizes = list(range(1, maxn + 1))
     sizes += [9, 11, 12, 13, 15, 16] if thorough else [9, 13, 16]   # beyond the stated bound (5-node chains)
+
+    _overlapping_arguments(ck, hashtree, J)
 
     # ---- exhaustive part (stated bound first, then the random orders, then the sizes beyond the bound)
     for n in sizes:
@@ -523,6 +530,69 @@ def _enumerate_target(ck, hashtree, J, W, W2, seq, ks, tgt):
             t = rebuild()
 
 
+def _overlapping_arguments(ck, hashtree, J):
+    """One call that passes the leaf both as leaves={k: v1} and as hashes[first_leaf+k] = v2 (mutable retrieve passes a
+    server-controlled `hashes` next to the leaf it computed itself): every (v2, v1) in {genuine, forged}^2, with the
+    rest of the chain as the tree asked for it / complete / absent, on root-only, partially populated and full trees."""
+    rng = ck.rng("overlap")
+    for n in list(range(1, 9)) + [13, 32, 64]:
+        W = World(hashtree, rng, n)
+        first = W.first
+        preludes = [("root-only", ())]
+        if n > 1:
+            others = list(range(n))
+            rng.shuffle(others)
+            preludes.append(("partial-1", tuple(others[:1])))
+            preludes.append(("partial-half", tuple(others[:max(1, n // 2)])))
+        preludes.append(("full", tuple(range(n))))
+        for pname, prelude in preludes:
+            targets = list(range(n)) if n <= 8 else sorted(set([0, 1, n // 2, n - 2, n - 1] + [rng.randrange(n) for _ in range(4)]))
+            try:
+                t = W.fresh(prelude, ck)
+            except PreludeFailed:
+                continue
+            for tgt in targets:
+                leafnode = first + tgt
+                sibs = W.G.needed_for(leafnode)
+                for chain_mode in ("asked", "complete", "none", "forged-sibling"):
+                    for hv in (G_, F_):
+                        for lv in (G_, F_):
+                            if chain_mode == "asked":
+                                hashes = dict((i, W.G[i]) for i in t.needed_hashes(tgt, include_leaf=False))
+                            elif chain_mode == "complete":
+                                hashes = dict((i, W.G[i]) for i in sibs)
+                            elif chain_mode == "none":
+                                hashes = {}
+                            else:
+                                hashes = dict((i, W.G[i]) for i in sibs)
+                                if sibs:
+                                    hashes[sibs[0]] = W.F[sibs[0]]
+                            asked = sorted(t.needed_hashes(tgt, include_leaf=True))
+                            # insertion order of the overlapping key varies too (first / last)
+                            hval = W.G[leafnode] if hv == G_ else W.F[leafnode]
+                            if (tgt + len(hashes)) % 2:
+                                hashes = dict([(leafnode, hval)] + list(hashes.items()))
+                            else:
+                                hashes[leafnode] = hval
+                            leaves = {tgt: W.G[leafnode] if lv == G_ else W.F[leafnode]}
+                            must = None
+                            if hv == G_ and lv == G_ and chain_mode == "asked":
+                                must = "genuine-rejected"
+                            ck.hit("overlapping-arguments-%s%s" % (hv, lv))
+                            v = J.call(W, t, hashes, leaves,
+                                       {"scenario": "leaf given in both arguments", "tree_state": pname,
+                                        "validated_before": list(prelude)[:16], "target_leaf": tgt, "chain": chain_mode,
+                                        "hashes_leafnode_value": hv, "leaves_value": lv, "asked": asked},
+                                       must_accept=must, hashes_kw=bool(tgt % 2))
+                            ck.case("overlapping-arguments", key=(n, pname, tgt, chain_mode, hv, lv), nontrivial=True,
+                                    sample={"nleaves": n, "state": pname, "target": tgt, "chain": chain_mode, "hashes": hv, "leaves": lv})
+                            if v != "rejected":
+                                try:
+                                    t = W.fresh(prelude, ck)
+                                except PreludeFailed:
+                                    break
+
+
 def _refresh(W, done):
     try:
         return W.fresh(done)
@@ -653,6 +723,7 @@ def _random_orders(ck, hashtree, J):
 #  caught  HashTree pads with empty_leaf_hash(0)                           -> genuine-tree-malformed
 #  caught  computed parents not added to remove_upon_failure               -> state-changed-on-reject
 #  caught  parent comparison skipped for even-numbered nodes               -> state-changed-on-reject
-#  MISSED (by design) leaves=/hashes= conflict check removed: the leaves= value then wins and is validated normally; the
-#          statement leaves "which of two conflicting arguments is the accepted one" open -> counted as dont_care.
-# Unchanged tree: out-of-range-index-not-rolled-back (genuine, see hashtree.py:477).
+#  caught  leaves=/hashes= conflict check removed, either argument winning (seeded/C35-4: hashes wins, the caller's forged
+#          leaves= value is dropped and the call returns normally)      -> conflicting-leaf-arguments-accepted
+#          (round 1 of this check counted that as dont_care; wrong: a normal return tells the caller its leaf is valid)
+# Tree before 24975d1: out-of-range-index-not-rolled-back (genuine, hashtree.py:477; fixed since).
